@@ -25,6 +25,13 @@ APP_ID = 16777251
 
 def build_msg(spec, idx):
     """spec -> reference message dict (deterministic from the spec)."""
+    if spec.get("target_len") and spec["kind"] in ("app_req", "app_ans"):
+        # size boundary: the encoded message is EXACTLY target_len bytes long (pad AVP = 8 bytes of header +
+        # data; targets are multiples of 4)
+        base_len = len(C.enc_msg(build_msg(dict(spec, target_len=None, pad=0), idx)))
+        want = spec["target_len"] - base_len - 8
+        if want >= 1:
+            spec = dict(spec, target_len=None, pad=want)
     k = spec["kind"]
     hbh = 0x20000000 + idx
     e2e = 0x30000000 + idx
@@ -161,6 +168,12 @@ class C04(Check):
         # later additions draw from a generator of their own (the stream above stays what it was)
         rng2 = random.Random(rng.getrandbits(48))
         scn["clock_jumps"] = draw_clock_jumps(rng2, span=0.3, p=0.15)
+        if not special and rng2.random() < 0.25:
+            # size boundaries: one or two messages are exactly 2^k (or 2^k +- 4) bytes long
+            for _ in range(rng2.choice([1, 2])):
+                m_ = rng2.choice(scn["msgs"])
+                if m_["kind"] in ("app_req", "app_ans"):
+                    m_["target_len"] = rng2.choice([252, 256, 260, 1020, 1024, 4092, 4096, 4100, 8192, 65532, 65536, 65540, 131072])
         if not special and rng2.random() < 0.2:
             # a slow sender: the pieces of one message arrive SECONDS apart (longer than any polling interval
             # or wait timeout inside the node); coarse ticks keep those seconds cheap
